@@ -7,7 +7,7 @@ CONSTANTS
   Users = {"u1", "u2", "u3"}
   Chans = {"c1", "c2"}
   Bodies = {"A", "B", "C", "D", "E", "Z", "R", "Xsyn", "Xtype", "Xdur", "Xhex"}
-  HdrKinds = {"cur", "curHex", "curOct", "stale", "future", "far", "missing", "garbage", "neg", "float", "space", "plus", "huge"}
+  HdrKinds = {"cur", "curHex", "curOct", "stale", "future", "far", "missing", "garbage", "neg", "float", "space", "lead", "plus", "huge"}
   Vias = {"d", "b1:a1", "b1:a2", "bx:a1"}
   Creds = {"o1", "o2", "ox"}
   InjectRevs = {"same", "zero", "plus3"}
